@@ -78,6 +78,66 @@ def selftests(pid, repo, seed=0):
     return res
 
 
+def _run_patch(pid, repo, patch):
+    """(status, violation keys, inconclusive reasons) of pid's rules on a scratch copy with `patch` applied."""
+    import subprocess
+    tmp = tempfile.mkdtemp(prefix="mila-cp-")
+    try:
+        shutil.copytree(os.path.join(repo, "src"), os.path.join(tmp, "src"))
+        for f in ("Cargo.toml", "Cargo.lock"):
+            shutil.copy(os.path.join(repo, f), os.path.join(tmp, f))
+        r = subprocess.run(["patch", "-p1", "-s", "-d", tmp, "-i", patch], stdout=subprocess.PIPE, stderr=subprocess.STDOUT)
+        if r.returncode != 0:
+            return "not-applicable", [], ["patch does not apply (the code has changed)"]
+        try:
+            paths = extract.extract(tmp, "dev")
+        except extract.ExtractError as e:
+            return "not-applicable", [], ["variant does not compile"]
+        facts = mir.Facts(paths["mila"])
+        rep = Report(pid)
+        mod = importlib.import_module(pid.lower())
+        try:
+            mod.run(facts, rep, {"tier": "quick", "seed": 0, "repo": tmp, "verif": VERIF, "facts": facts, "verbose": False})
+            rep.finish_floors()
+        except Inconclusive as e:
+            rep.inconc(e.rule, e.reason)
+        except Exception as e:
+            rep.inconc("internal", str(e)[:200])
+        known = json.load(open(os.path.join(VERIF, "known_findings.json")))
+        kk = set(k["key"] for k in known.get("known", []))
+        keys = [v["key"] for v in rep.violations if v["key"] not in kk]
+        return "ran", keys, [i["reason"][:100] for i in rep.inconclusive]
+    finally:
+        shutil.rmtree(tmp, ignore_errors=True)
+
+
+def corpus(pid, repo):
+    """The stored independent changes: every behaviour-preserving refactoring (refactors/*) must not raise a
+    violation of `pid`; every seeded defect of `pid` (seeded/<pid>-*) must."""
+    jobs = []
+    rdir = os.path.join(VERIF, "refactors")
+    for n in sorted(os.listdir(rdir)) if os.path.isdir(rdir) else []:
+        jobs.append(("refactor", n, os.path.join(rdir, n, "patch.diff")))
+    sdir = os.path.join(VERIF, "seeded")
+    for n in sorted(os.listdir(sdir)) if os.path.isdir(sdir) else []:
+        if n.startswith(pid + "-"):
+            jobs.append(("seed", n, os.path.join(sdir, n, "patch.diff")))
+    out = []
+
+    def one(job):
+        kind, name, patch = job
+        st, keys, inc = _run_patch(pid, repo, patch)
+        if st != "ran":
+            return {"kind": kind, "name": name, "status": st, "why": inc[:1]}
+        if kind == "refactor":
+            return {"kind": kind, "name": name, "status": "FALSE-ALARM" if keys else ("undecided" if inc else "silent"), "keys": keys[:3], "inconclusive": inc[:2]}
+        return {"kind": kind, "name": name, "status": "fired" if keys else "MISSED", "keys": keys[:3], "inconclusive": inc[:2]}
+    with concurrent.futures.ThreadPoolExecutor(max_workers=8) as ex:
+        for r in ex.map(one, jobs):
+            out.append(r)
+    return out
+
+
 def profile_compare(repo):
     """Non-arithmetic panic sites and calls must be identical with overflow checks off: no code path
     depends on cfg(debug_assertions)."""
